@@ -11,3 +11,27 @@ package disk
 //@   property C18
 //@   opts own
 //@   modifies heap(Informer)
+
+// ---- C15: the section's saved form ----
+//@ func (cfg *Config) toJSONConfig
+//@   property C15
+//@   requires cfg != nil
+//@   ensures res != nil && fresh(res)
+//@   ensures [metric-ttl] res.MetricTTL == cfg.MetricTTL.String()
+//@   ensures [metric-type] res.MetricType == ite(cfg.MetricType == MetricFreeSpace, "freespace", ite(cfg.MetricType == MetricRepoSize, "reposize", ""))
+//@   modifies nothing
+
+//@ func (cfg *Config) Validate
+//@   property C15
+//@   modifies nothing
+
+//@ func (cfg *Config) applyJSONConfig
+//@   property C15
+//@   requires cfg != nil && jcfg != nil
+//@   ensures [metric-ttl] cfg.MetricTTL == libfn("time.ParseDuration", 0, jcfg.MetricTTL)
+//@   ensures [metric-type] err == nil ==> (jcfg.MetricType == "reposize" && cfg.MetricType == MetricRepoSize) || (jcfg.MetricType == "freespace" && cfg.MetricType == MetricFreeSpace)
+//@   ensures [unknown-type-refused] jcfg.MetricType != "reposize" && jcfg.MetricType != "freespace" ==> err != nil
+//@   modifies heap(Config)
+// saving then loading the metric type is the identity on the two defined types
+//@ lemma metric_type_roundtrip: forall t MetricType :: (t == MetricFreeSpace || t == MetricRepoSize) ==> ite(ite(t == MetricFreeSpace, "freespace", ite(t == MetricRepoSize, "reposize", "")) == "reposize", MetricRepoSize, MetricFreeSpace) == t
+//@   property C15
